@@ -112,6 +112,7 @@ def run(model, res, tier):
     res.rule('R2', 'the two converters are inverse, strictly monotone and follow the Excel 1900 system')
     res.rule('R3', 'no cache or shared state in the converters')
     res.rule('R4', 'the comparison operators see exactly serial(operand) for date operands')
+    res.rule('R6', 'N and DATEVALUE of a date-time are serial(that date-time) - the same serial the operators see')
     res.rule('R5', 'the arithmetic operators see exactly serial(operand) for date operands (the operand itself, not a truncated or rebuilt copy)')
     res.assumptions += ['A5 exact rational arithmetic stands in for floating point', 'text dates (dateutil) are outside this rule']
     res.trusted += ['hxsa abstract interpreter with the affine-form domain', 'python datetime for folding the date constants']
@@ -125,6 +126,7 @@ def run(model, res, tier):
     _r2(model, res, c, um)
     _r4(model, res, c)
     _r5(model, res, c)
+    _r6(model, res, c)
     keys = [(um.name, 'serialize_date'), (um.name, 'parse_date')]
     region = c.cg.reachable(keys)
     purity.check_region(res, c, 'R3', None, region, 'a date converter')
@@ -420,3 +422,28 @@ def _r5(model, res, c):
                               'day (or another part of the operand) is lost before the arithmetic, so date +/- number and N/DAYS/comparisons no '
                               'longer see the same serial' % (label, op, bad[0]), case={'op': op, 'case': label}, func=f.name)
     res.soft_floor('arithmetic runs with a date operand', n, 8)
+
+
+def _r6(model, res, c):
+    opaque = H.date_opaque(model)
+    for name in ('N', 'DATEVALUE'):
+        if name not in model.registry:
+            continue
+        m, f = model.registered(name)
+        try:
+            outs = H.run_function(model, H.registry_func(model, name), lambda: [Sym('datetime', 'D')], opaque=opaque)
+        except Unmodelled as e:
+            res.ob('R6', name, 'date-time argument', True, 'undecided: %s' % e)
+            continue
+        vals = [o for o in outs if not o.imprecise]
+        if not vals:
+            res.ob('R6', name, 'date-time argument', True, 'undecided (unmodelled construct)')
+            continue
+        bad = [o for o in vals if not (o.kind == 'return' and isinstance(o.value, Atom) and o.value.op == 'serial' and len(o.value.args) == 1
+                                       and isinstance(o.value.args[0], Sym) and o.value.args[0].name == 'D')]
+        res.ob('R6', name, '%s(date-time) = serial(date-time)' % name, not bad, H.describe(vals)[:2])
+        if bad:
+            res.violation('R6', 'function:%s:serial-of-operand' % name, m.where(f),
+                          '%s of a date-time must be the serial of that very date-time; got %s - a copy rebuilt from some of its parts loses the '
+                          'time of day, so %s no longer agrees with DAYS, the operators and the comparisons' % (name, '; '.join(H.describe(bad)[:2]), name),
+                          func=f.name)
